@@ -257,6 +257,27 @@ func c12R1(c *Ctx) {
 				continue
 			}
 		}
+		if cp.IsNil && (!ok || call.Fun == nil) {
+			// the nil wrapper built in place
+			t := res
+			if ad, isAd := t.(TAddr); isAd {
+				t = ad.X
+			}
+			if lit, isLit := t.(TLit); isLit && lit.Type != nil && len(lit.Elts) == 0 && len(p.Effects()) == 0 {
+				if n, isN := lit.Type.(*types.Named); isN {
+					for _, w := range c.Inv().Wrappers {
+						if w.Obj() == n.Obj() && c.wrapperKind(w) == "nil" {
+							seenKinds["nil"]++
+							ob.Ok("nil becomes the nil wrapper (built in place)")
+							t = nil
+						}
+					}
+				}
+				if t == nil {
+					continue
+				}
+			}
+		}
 		if !ok || call.Fun == nil {
 			ob.Fail("arm does not return a constructor call")
 			continue
@@ -761,20 +782,17 @@ func typedGetterPaths(c *Ctx, gd *ast.FuncDecl, m *types.Func) string {
 		if len(conds) != 1 || len(p.Effects()) != 0 {
 			return "more than the one kind decision"
 		}
-		pr, ok := conds[0].T.(TProj)
-		var as TAssert
-		if ok {
-			as, ok = pr.X.(TAssert)
+		opnd, asT, ok := kindTestOf(conds[0].T) // comma-ok assertion or one-arm type switch
+		if !ok || asT == nil || !types.Identical(asT, resT) {
+			return "the decision is not the kind test (comma-ok assertion or type switch) for the result type " + shortType(resT)
 		}
-		if !ok || pr.K != 1 || !types.Identical(as.To, resT) {
-			return "the decision is not the comma-ok assertion to the result type " + shortType(resT)
-		}
+		as := TAssert{X: opnd, To: asT}
 		nm, args, ok := v.selfCall(as.X)
 		if !ok || nm != "Get" || len(args) != 1 || !isParamTerm(args[0], par) {
 			return "the asserted value is not self.Get(argument)"
 		}
 		if conds[0].Truth {
-			if p.End != "return" || len(p.Vals) != 1 || !sameTerm(p.Vals[0], TProj{as, 0}) {
+			if p.End != "return" || len(p.Vals) != 1 || !(sameTerm(p.Vals[0], TProj{as, 0}) || sameTerm(p.Vals[0], as)) {
 				return "a matching kind does not return the asserted value"
 			}
 		} else if p.End != "panic" {
@@ -851,6 +869,51 @@ func c12R4(c *Ctx) {
 					}
 				}
 				return true, "phi of producers"
+			case *ssa.Parameter:
+				// a field handed to an unexported helper (`push(f field)`): decided at every call site of the helper
+				fn := x.Parent()
+				if fn == nil || fn.Parent() != nil || fn.Object() == nil || fn.Object().Exported() || !types.Identical(x.Type(), field) {
+					break
+				}
+				idx := -1
+				for i, q := range fn.Params {
+					if q == x {
+						idx = i
+					}
+				}
+				sites := 0
+				for _, caller := range a.fns {
+					var all []*ssa.Function
+					all = append(all, caller)
+					for i := 0; i < len(all); i++ {
+						all = append(all, all[i].AnonFuncs...)
+					}
+					for _, f := range all {
+						for _, blk := range f.Blocks {
+							for _, in := range blk.Instrs {
+								for _, op := range in.Operands(nil) {
+									if op != nil && *op == ssa.Value(fn) {
+										ci, isCall := in.(ssa.CallInstruction)
+										if !isCall || ci.Common().Value != ssa.Value(fn) {
+											return false, "the helper " + fn.Name() + " is used as a value"
+										}
+									}
+								}
+								ci, isCall := in.(ssa.CallInstruction)
+								if !isCall || ci.Common().StaticCallee() != fn || idx < 0 || idx >= len(ci.Common().Args) {
+									continue
+								}
+								sites++
+								if ok, why := rec(ci.Common().Args[idx]); !ok {
+									return false, why + " (argument of " + fn.Name() + ")"
+								}
+							}
+						}
+					}
+				}
+				if sites > 0 {
+					return true, "parameter of the private helper " + fn.Name() + ": a producer at each of its " + itoa(sites) + " call sites"
+				}
 			}
 			return false, "value of unknown provenance"
 		}
